@@ -29,8 +29,10 @@ META = dict(
          "grouping parentheses, over int, char, unsigned long, double, void, _Bool, four typedefs, struct, union, "
          "enum) and every single-token deletion, duplication and adjacent swap of every depth <= 3 string is given "
          "to the in-line FFI and to the FFI of an imported out-of-line module built from the same cdef, in three "
-         "declaration contexts (none, direct, via ffi.include).  Both must reject, or return the identical ctype "
-         "object (same kind/shape/name where a struct, union or enum occurs).",
+         "declaration contexts (none, direct, via ffi.include; near misses: direct only in the quick tier, none + "
+         "direct in the thorough tier).  Both must reject, or return the identical ctype object (same "
+         "kind/shape/name where a struct, union or enum occurs).  Every disagreement is attributed to a root cause "
+         "by a structural condition on the input; what no listed cause explains is reported as 'unexplained'.",
     note="differential oracle: a defect shared by both parsers is invisible here (C30 and C08 look at each parser "
          "alone); strings whose struct/union/enum/typedef/constant names are not declared in the context are "
          "outside the statement and are counted, not compared")
@@ -279,6 +281,9 @@ def space(ctx):
     base = [t for c, t in tn]
     base_nm = [t for c, t in tn if c <= NM_DEPTH]
     baseset = set(base)
+    for t in base:          # self-check of the scope rule: it must not exclude any derivation of G
+        if G.in_scope(t, "decls") is not None or G.in_scope(t, "include") is not None:
+            raise InfraError("scope rule excludes the derivation %r" % (G.spaced(t),))
     strings_base = set()
     for c, t in tn:
         strings_base.add(G.spaced(t))
@@ -309,7 +314,8 @@ def run(ctx):
 
 def _run(ctx):
     depth, base, s_base, s_nm = space(ctx)
-    ctx.log("depth %d: %d derivations, %d distinct strings (2 spellings), %d distinct near-miss strings" % (
+    ctx.log("depth %d: %d derivations, %d distinct strings (spaced; dense too up to depth 3), %d distinct "
+            "near-miss strings" % (
         depth, len(base), len(s_base), len(s_nm)))
     ctx_base = list(G.CONTEXTS)
     ctx_nm = ["decls"] if ctx.quick else ["empty", "decls"]
